@@ -512,6 +512,12 @@ class Effects:
             attr = _self_attr(target_expr, env)
             st = Store(node, roots, how, fi, attr)
             st.guarded = _guarded_lazy(node, attr, pm) if attr else False
+            if st.guarded:
+                gap = _memo_key_gap(node, fi.fn)
+                if gap:
+                    # a memo whose key does not determine the stored value is not a lazy initialisation
+                    st.guarded = False
+                    st.how = f'{how} into a memo ({gap})'
             stores.append(st)
 
         def bind(t, v, strong):
@@ -853,6 +859,82 @@ def _guarded_lazy(node: ast.AST, attr: Optional[str], pm: Dict[ast.AST, ast.AST]
                     return True
         cur = par
     return False
+
+
+_LOSSLESS_METHODS = {'tobytes', 'tolist', 'astype', 'copy', 'ravel', 'flatten', 'items', 'tostring'}
+_LOSSLESS_FUNCS = {'tuple', 'bytes', 'id', 'frozenset', 'list'}
+
+
+def _memo_key_gap(node: ast.AST, fn: ast.AST) -> Optional[str]:
+    """For `self.memo[key] = value`: the parameters of `fn` the value is computed from that the key does not
+    cover losslessly (the parameter itself, id(), tuple()/bytes()/tolist()/tobytes() of it).  A key built from
+    a projection (`.shape`, `len()`, a sum ...) lets two different inputs share one entry."""
+    if not (isinstance(node, ast.Assign) and len(node.targets) == 1 and isinstance(node.targets[0], ast.Subscript)):
+        return None
+    key, val = node.targets[0].slice, node.value
+    a = fn.args
+    params = {x.arg for x in a.posonlyargs + a.args + a.kwonlyargs} - {'self', 'cls'}
+    if a.vararg:
+        params.add(a.vararg.arg)
+    if a.kwarg:
+        params.add(a.kwarg.arg)
+    defs: Dict[str, List[ast.AST]] = {}
+    for n in walk_no_nested(fn):
+        if isinstance(n, ast.Assign):
+            for t in n.targets:
+                if isinstance(t, ast.Name):
+                    defs.setdefault(t.id, []).append(n.value)
+                elif isinstance(t, (ast.Tuple, ast.List)):
+                    for e in ast.walk(t):
+                        if isinstance(e, ast.Name):
+                            defs.setdefault(e.id, []).append(n.value)
+        elif isinstance(n, (ast.AugAssign, ast.AnnAssign)) and isinstance(n.target, ast.Name) and n.value is not None:
+            defs.setdefault(n.target.id, []).append(n.value)
+        elif isinstance(n, (ast.For, ast.comprehension)):
+            for e in ast.walk(n.target):
+                if isinstance(e, ast.Name):
+                    defs.setdefault(e.id, []).append(n.iter)
+
+    def deps(e, seen) -> Set[str]:
+        out: Set[str] = set()
+        for x in ast.walk(e):
+            if isinstance(x, ast.Name) and isinstance(x.ctx, ast.Load):
+                if x.id in params and x.id not in defs:
+                    out.add(x.id)
+                elif x.id in defs and x.id not in seen:
+                    seen.add(x.id)
+                    if x.id in params:
+                        out.add(x.id)
+                    for d in defs[x.id]:
+                        out |= deps(d, seen)
+        return out
+
+    def cover(e, seen) -> Set[str]:
+        if isinstance(e, ast.Name):
+            if e.id in params and e.id not in defs:
+                return {e.id}
+            if len(defs.get(e.id, ())) == 1 and e.id not in seen:
+                return cover(defs[e.id][0], seen | {e.id})
+            return set()
+        if isinstance(e, (ast.Tuple, ast.List)):
+            out: Set[str] = set()
+            for x in e.elts:
+                out |= cover(x, seen)
+            return out
+        if isinstance(e, ast.Call) and not e.keywords:
+            if isinstance(e.func, ast.Name) and e.func.id in _LOSSLESS_FUNCS and len(e.args) == 1:
+                return cover(e.args[0], seen)
+            if isinstance(e.func, ast.Attribute) and e.func.attr in _LOSSLESS_METHODS:
+                return cover(e.func.value, seen)
+        return set()
+
+    need = deps(val, set())
+    have = cover(key, set())
+    missing = sorted(need - have)
+    if missing:
+        return (f'the stored value is computed from {missing} but the key `{norm_stmt(key, 80)}` does not determine '
+                f'{"it" if len(missing) == 1 else "them"}: different inputs share one entry')
+    return None
 
 
 def _call_guarded_once(call: ast.Call, target: FuncInfo, pm: Dict[ast.AST, ast.AST]) -> bool:
